@@ -36,12 +36,12 @@ func (C20) Gen(rt *rapid.T, tier string) any {
 	}
 	ns := rapid.IntRange(0, 2).Draw(rt, "nstandalone")
 	for i := 0; i < ns; i++ {
-		cfg.Standalone = append(cfg.Standalone, StandSpec{Name: fmt.Sprintf("s%d", i), NPkgs: rapid.IntRange(0, 2).Draw(rt, fmt.Sprintf("s%d.n", i)), Err: rapid.IntRange(0, 4).Draw(rt, fmt.Sprintf("s%d.err", i)) == 0})
+		cfg.Standalone = append(cfg.Standalone, StandSpec{Name: fmt.Sprintf("s%d", i), NPkgs: rapid.IntRange(0, 2).Draw(rt, fmt.Sprintf("s%d.n", i)), Err: rapid.IntRange(0, 4).Draw(rt, fmt.Sprintf("s%d.err", i)) == 4})
 	}
 	nd := rapid.IntRange(0, 4).Draw(rt, "ndetectors")
 	var dets []DetSpec
 	for i := 0; i < nd; i++ {
-		d := DetSpec{Name: fmt.Sprintf("d%d", i), Err: rapid.IntRange(0, 3).Draw(rt, fmt.Sprintf("d%d.err", i)) == 0}
+		d := DetSpec{Name: fmt.Sprintf("d%d", i), Err: rapid.IntRange(0, 3).Draw(rt, fmt.Sprintf("d%d.err", i)) == 3}
 		nf := rapid.IntRange(0, 3).Draw(rt, fmt.Sprintf("d%d.nf", i))
 		for j := 0; j < nf; j++ {
 			l := fmt.Sprintf("d%d.f%d", i, j)
